@@ -5,6 +5,7 @@
 
 import errno
 import os.path
+import stat
 
 from gemato.compression import (
     open_potentially_compressed_path,
@@ -35,6 +36,7 @@ from gemato.util import (
     path_inside_dir,
     )
 from gemato.verify import (
+    get_file_metadata,
     verify_path,
     verify_entry_compatibility,
     update_entry_for_path,
@@ -79,6 +81,18 @@ class ManifestLoader:
             ret, diff = verify_path(path, verify_entry)
             if not ret:
                 raise ManifestMismatch(relpath, verify_entry, diff)
+        else:
+            # nobody has looked at the file type yet, and opening e.g.
+            # a named pipe would block forever
+            g = get_file_metadata(path, hashes=[])
+            try:
+                if next(g):
+                    next(g)
+                    ifmt, ftype = next(g)
+                    if not (stat.S_ISREG(ifmt) or stat.S_ISDIR(ifmt)):
+                        raise ManifestInvalidPath(path, ('__type__', ftype))
+            finally:
+                g.close()
 
         try:
             opened = open_potentially_compressed_path(path, 'r',
